@@ -66,5 +66,19 @@ def nontrivial(c):
 
 
 def run(r):
-    import sys
+    # protocol part (exploration shared with C05): at every usage token of generated workspaces on disk the real server's
+    # go-to-definition must land on an indexed fixture that hover, go-to-implementation and call-hierarchy preparation
+    # also name, and the references listed on a definition must be exactly the usages whose go-to-definition lands on it
+    import os, random, sys
+    import core, C05
+    quick = r.tier == "quick"
+    stdlib = set(core.tables()["stdlib_modules"])
+    bad, stats, _ = C05.explore_handlers(r, random.Random(r.seed * 19 + 1), int(os.environ.get("VERIF_H2_WORKSPACES", 12 if quick else 80)), stdlib)
+    seen = set()
+    for b in bad:
+        if not any(x in b["why"] for x in ("go-to-definition", "references of a definition")) or b["why"] in seen:
+            continue
+        seen.add(b["why"])
+        r.violation(dict({"property": PID, "part": "handlers"}, **b), "h2_%d" % len(seen))
+    r.extra_coverage = {"handler_part": {k: v for k, v in stats.items() if k in ("workspaces", "positions", "hover", "references_inverse")}}
     return runner.drive_ws(r, sys.modules[__name__])
